@@ -158,8 +158,8 @@ PROPS = {
                    "every alteration that changes the signing root, the signature, the named validator, the agreed proposal payload, the claimed share or the admissibility of the duty is rejected before any subscriber runs.",
         level_note="Signing roots and domains come from specsign / fakebn; alterations of unsigned metadata assert nothing; pre-merge proposals are outside the signing flow; cryptographic negatives are statistical.",
         runs={
-            "quick": [dict(test="TestC10ValidatorAPI", checks=500, shards=3, shrinktime="10s"), dict(test="TestC10PeerPath", checks=700, shards=2, shrinktime="10s"), dict(test="TestC10Batches", checks=300, shards=3, shrinktime="10s")],
-            "thorough": [dict(test="TestC10ValidatorAPI", checks=12000, shards=7, timeout=3000), dict(test="TestC10PeerPath", checks=20000, shards=5, timeout=3000), dict(test="TestC10Batches", checks=8000, shards=4, timeout=3000)],
+            "quick": [dict(test="TestC10ValidatorAPI", checks=500, shards=3, shrinktime="10s"), dict(test="TestC10PeerPath", checks=700, shards=2, shrinktime="10s"), dict(test="TestC10Batches", checks=300, shards=3, shrinktime="10s"), dict(test="TestC10PeerBatches", checks=500, shrinktime="10s")],
+            "thorough": [dict(test="TestC10ValidatorAPI", checks=12000, shards=7, timeout=3000), dict(test="TestC10PeerPath", checks=20000, shards=5, timeout=3000), dict(test="TestC10Batches", checks=8000, shards=3, timeout=3000), dict(test="TestC10PeerBatches", checks=20000, shards=2, timeout=3000)],
         },
     ),
     "C01": dict(
@@ -169,7 +169,7 @@ PROPS = {
                    "Every object any node hands to Broadcaster.Broadcast or AggSigDB.Store must verify under the group key for the spec signing root of its own content, and all objects of one (duty, validator) must share one signing root.",
         level_note="Scheduler and fetcher are stubs, Byzantine behaviour is partial-signature only (consensus adversaries: C02), proposer duty not exercised; lock-level races are not controlled; signing roots come from specsign.",
         runs={
-            "quick": [dict(test="TestC01Cluster", checks=60, shards=4, shrinktime="15s")],
+            "quick": [dict(test="TestC01Cluster", checks=90, shards=8, shrinktime="15s")],
             "thorough": [dict(test="TestC01Cluster", checks=1500, shards=16, timeout=3400, env={"VERIF_MAXEV": 400})],
         },
     ),
